@@ -417,6 +417,8 @@ def check_C18(tier, seed):
     for i, c in enumerate([c for c in L if c["id"].startswith("h-0")][:2]):
         for j, plan in enumerate(["ok", "absent", "ok", "fail_no_read", "ok", "kill_after_read", "very_slow", "ok", "absent"]):
             G.append(dict(c, id="h-fmt-%d-%d" % (i, j), opts=dict(c["opts"], rustfmt=True), fmt_plan=plan, repeat=0))
+    for j, plan in enumerate(["ok", "fail_no_read", "ok", "kill_no_read", "ok_no_read", "ok"]):
+        G.append(dict(large[0], id="h-fmt-large-%d" % j, opts=dict(large[0]["opts"], rustfmt=True), fmt_plan=plan, repeat=0))
     evG = run_vdriver_raw("gen", G, "C18_G", extra=["--no-project", "--no-s"])
     # (vi) system calls of the calling process: nothing is spawned or opened for writing, except one formatter per call when asked
     sys_events = []
@@ -689,6 +691,11 @@ def check_C01(tier, seed):
            "globals": [{"name": "d", "space": "storage_r", "group": "0", "binding": "0", "ty": {"k": "struct", "name": "D"}}], "consts": [], "overrides": [], "functions": [],
            "entries": [{"name": "main", "stage": "compute", "params": [], "body": [{"k": "access", "g": "d", "how": "addr"}], "wg": ["1"]}]}
     cases.append({"id": "dup-member-0", "family": "compile-ident", "S": dup, "opts": F.opts()})
+    for i, o_ in enumerate([F.opts(bmh=True), F.opts(bmh=True, bmv=True, serde=False), F.opts(enc=True, mv="glam"), F.opts()]):
+        cases.append({"id": "big-struct-%d" % i, "family": "compile-large-struct", "opts": o_,
+                      "S": {"structs": [{"name": "Big", "members": [{"name": "items", "ty": {"k": "array", "n": 4097, "e": F.VEC4}}, {"name": "n", "ty": {"k": "scalar", "s": "u32"}}]}],
+                            "globals": [{"name": "big", "space": "storage_r", "group": "0", "binding": "0", "ty": {"k": "struct", "name": "Big"}}], "consts": [], "overrides": [], "functions": [],
+                            "entries": [{"name": "main", "stage": "compute", "params": [], "body": [{"k": "access", "g": "big", "how": "addr"}], "wg": ["1"]}]}})
     # compute entries whose workgroup size is given by overrides (literal default, expression default, no default)
     for i, (ovs, wg) in enumerate([([{"name": "base", "ty": "u32", "default": "4u"}, {"name": "wide", "ty": "u32", "default": "2 * base"}], ["wide"]),
                                    ([{"name": "n", "ty": "u32"}], ["n", "2"]), ([{"name": "wx", "ty": "u32", "default": "16u"}, {"name": "wy", "ty": "u32"}], ["wx", "wy", "1"]),
@@ -962,6 +969,15 @@ def check_C04(tier, seed):
         S = F.bgd_shader(e["decls"], use=True)
         S["entries"][0]["body"] = S["entries"][0]["body"][::2]
         cases.append({"id": "seqv-%05d" % i, "family": "bind-groups-exported-validated-partly-used", "S": S, "opts": F.opts(validate="all")})
+    badseq = [e for e in r.cases if e["expect"] != "ok" and len(e["decls"]) >= 2]
+    rng.shuffle(badseq)
+    for i, e in enumerate(badseq[:(40 if quick else 600)]):
+        B = F.bgd_shader(e["decls"], use=True, tys=[[F.VEC4, {"k": "array", "n": 4, "e": {"k": "scalar", "s": "u32"}}][(i + j) % 2] for j in range(len(e["decls"]))])
+        for g_ in B["globals"]:
+            g_["space"] = "storage_r" if g_["ty"]["k"] == "array" else "uniform"
+        acc = B["entries"][0]["body"]
+        B["entries"] = [{"name": "fs_main", "stage": "fragment", "params": [], "body": acc[0::2], "wg": []}, {"name": "cs_main", "stage": "compute", "params": [], "body": acc[1::2], "wg": ["1"]}]
+        cases.append({"id": "seqbad-%05d" % i, "family": "bind-groups-refused-sequences-disjoint-stages", "S": B, "opts": F.opts(validate=("none", "all")[i % 2])})
     want = {"bindgroups"}
     compiled_and_judge(rep, "C04", cases, "exported", "shim", want, keep=["groups"])
     # operation sequences explored by TLC over the API state machine, replayed on the compiled module
